@@ -142,6 +142,8 @@ def discharge(ob, alg, live, budget, tier):
             if st == 'sat':
                 w = {k: float(v) for k, v in env.items()}
         return done('refuted', 'path-reachable', witness=w, detail='goal is False on this path')
+    if budget <= 0:
+        return done('undecided', 'skipped', detail='listed known finding: solver not run; ring: %s' % ring_detail)
     # 3. SMT portfolio: structured (term-level) export and canonical (polynomial) export, z3 then cvc5
     hyps = relevant_hyps(ob.hyps, goal)
     first = min(budget, 8.0)
@@ -268,7 +270,7 @@ def verify_contract(name, tier='quick', seed=0, repo=None, known=()):
                 try:
                     b = budget
                     if any(re.search(k, ob.name) for k in known):
-                        b = min(budget, 3.0)     # clause listed as a known finding: no long solver runs on it
+                        b = 0.0     # clause listed as a known finding: samples and ring only, no solver runs
                     v = discharge(ob, alg, p.strict_live(), b, tier)
                 except EngineError as e:
                     v = dict(status='error', backend='engine', s=0.0, detail=str(e)[:300])
